@@ -208,13 +208,16 @@ def dirMismatch (syn : Syntax) (mode : Filemode) (pattern : Str) : Bool :=
 
 def isReal (pattern : Str) : Bool := isAbsolute pattern || isRelativePattern pattern
 
-/-- the rule list of pathmatch.h for one pattern (an empty pattern matches nothing; a pattern that is
-    literally the path string matches it unless it is a directory pattern tested against a regular file) -/
+/-- the rule list of pathmatch.h for one pattern (an empty pattern matches nothing) -/
 def PathMatchSpec (syn : Syntax) (mode : Filemode) (pattern path base : Str) : Prop :=
   pattern ≠ [] ∧
-    ((dirMismatch syn mode pattern = false ∧ pattern = path) ∨
-     SpecMatch (isReal pattern) (canonPattern syn pattern base)
-      (if dirMismatch syn mode pattern then parentOf (canonPath syn path base) else canonPath syn path base))
+    SpecMatch (isReal pattern) (canonPattern syn pattern base)
+      (if dirMismatch syn mode pattern then parentOf (canonPath syn path base) else canonPath syn path base)
+
+/-- where the `pattern == path` shortcut of the code is covered by the rule: the pattern is absolute / relative to the
+    base path, or the base path is empty, or it is absolute and the pattern has no root of its own (always so on unix) -/
+def FastPathOk (syn : Syntax) (pattern base : Str) : Bool :=
+  isReal pattern || base.isEmpty || (isAbsolute base && rootLen syn (cstr pattern) == 0)
 
 /-! ### executable form of the rules -/
 
@@ -249,9 +252,8 @@ def specMatchB (real : Bool) (P Y : Str) : Bool :=
 
 def pathMatchSpecB (syn : Syntax) (mode : Filemode) (pattern path base : Str) : Bool :=
   !pattern.isEmpty &&
-    ((!dirMismatch syn mode pattern && pattern == path) ||
      specMatchB (isReal pattern) (canonPattern syn pattern base)
-      (if dirMismatch syn mode pattern then parentOf (canonPath syn path base) else canonPath syn path base))
+      (if dirMismatch syn mode pattern then parentOf (canonPath syn path base) else canonPath syn path base)
 
 /-! ### input classes on which `PathMatch::match` before the repair leaves the documented rules -/
 
@@ -279,6 +281,7 @@ def rawPath (syn : Syntax) (path base : Str) : Nat × Str :=
 def MatchOk (v : Variant) (syn : Syntax) (mode : Filemode) (pattern path base : Str) : Bool :=
   CanonOk v (rawPattern syn pattern base).1 (rawPattern syn pattern base).2 &&
   CanonOk v (rawPath syn path base).1 (rawPath syn path base).2 &&
+  (pattern != path || FastPathOk syn pattern base) &&
   (v.star || starOkR (canonPattern syn pattern base).reverse) &&
   (v.dirsep || dirSepOk syn mode pattern base)
 
